@@ -708,8 +708,8 @@ def twin_for_entry(e, sig_text):
     if not m:
         return None
     req = m.group(1).strip().rstrip(',')
-    if not req:
-        return None
+    if not req or req == 'false':
+        return None      # `requires false`: the function is declared unreachable on purpose; every call site must prove that
     sig_text = _strip_comments(sig_text)
     pm = re.search(r'\bfn\s+\w+\s*(<[^()]*>)?\s*\(', sig_text)
     if not pm:
